@@ -235,4 +235,16 @@ def run(ctx):
             run.instance(R5, {"fn": "lock_tx_context", "obligation": "no call chain hands a counterparty-controlled slate to the reservation step that records the cutoff", "call_sites_examined": len(seen5), "violations": len(bad5)}, held=not bad5)
             for cf, cb, csp, why, chain in bad5:
                 run.finding(Finding(R5, cf.id, "the sender's cutoff is recorded from %s: a reply that carries no (or a later) cutoff switches the sender's expiry off" % why.split(" (")[0], site=":".join(csp.split(":")[:2])))
+    R6 = "C17.R6"
+    run.rule(R6, "the expiry step releases only what the expired transaction holds: the cancel it runs hands exactly that entry's outputs of that entry's account to the rollback (log ids are per account; a pending transaction of another account with the same id, with no cutoff or a later one, is not touched)", floor=3)
+    ct6 = ctx.fn(c.LW + "internal::tx::cancel_tx")
+    if ct6 is None:
+        run.error("C17.R6: internal::tx::cancel_tx not found")
+    else:
+        from .shared import rollback_scope
+        rollback_scope(ctx, R6, ct6, ct6.id)
+    R7 = "C17.R7"
+    run.rule(R7, "the refresh writes under the account its entries were collected from (the entry's own account, not a second read of the active account): a transaction of another account with the same log id, with no cutoff or a later one, is not cancelled", floor=2)
+    from .shared import refresh_account_consistency
+    refresh_account_consistency(ctx, R7)
     run.not_decided += ["full release bookkeeping after expiry (see C05)", "what 'observed height' means beyond the stored last_confirmed_height / node tip"]
